@@ -146,7 +146,7 @@ check("C08", "upload sessions sequential, isolated, no residue", "exploration",
       "Trusted: testing/synctest of go1.26.8 (the check is built with that toolchain; file mtimes stay real inside a bubble, which this check does not depend on); the session model; "
       "eviction choice is not specified: a session may only be reported unknown after the bound was exceeded while it was open or after it was idle for the grace period.",
       "DESIGN.md §3 C08",
-      [R("^TestC08$", 16000, 1000000, steps=40)], variant="go126")
+      [R("^TestC08$", 16000, 1000000, steps=40), R("^TestC08Overlap$", 4000, 200000)], variant="go126")
 
 check("C20", "the bounded cache never drops an entry without its cleanup", "exploration",
       "rapid state machine over cache.Cache inside a testing/synctest bubble; oracle = ledger of callback invocations vs membership (incarnations), LRU and age rules on the virtual clock",
